@@ -249,14 +249,20 @@ def inline_new_helpers(raw, known):
     # does not have — `self.set_transform(&t)` where the audited function stored the field, `self.width()` for the field —
     # are inlined at that new edge as well; their own bodies stay
     def is_leaf(b):
-        n = 0
+        n = calls = 0
         for blk in b['blocks']:
             if blk.get('cleanup'):
                 continue
-            if blk['t']['k'] not in ('return', 'goto', 'unreachable'):
+            t = blk['t']
+            if t['k'] == 'call':
+                c = _callee(t) or ''
+                if c.startswith(raw.get('crate', 'raqote') + '::') or not c:
+                    return False        # calls into the crate: not a leaf
+                calls += 1
+            elif t['k'] not in ('return', 'goto', 'unreachable', 'drop'):
                 return False
             n += len(blk['st'])
-        return n <= 6
+        return n <= 8 and calls <= 2
     leaves = {q: b for q, b in bodies.items() if q in known and isinstance(known[q], dict) and 'callees' in known[q]
               and b.get('kind') in ('Fn', 'AssocFn') and not b.get('impl_trait') and is_leaf(b)}
     has_edges = any(isinstance(v, dict) and 'callees' in v for v in known.values())
